@@ -10,9 +10,13 @@
    6  what remove_target / replace_attrs do to a forest                 (remove_target_.., replace_attrs_..)
    7  T2: frame of the model without hypotheses                         (deviation_frame_.., jobs_frame, Process_frame)
    8  T3: IgnoreDeviateNotSupported                                     (ignore_not_supported..)
-   9  Process = pre_dev + deviation pass; T4: what is reported          (Process_split, Process_reports_.., .._errs) *)
+   9  Process = pre_dev + deviation pass; T4: what is reported          (Process_split, Process_reports_.., .._errs)
+  10  what a path lookup creates and its frame                          (find_created, Find_frame)
+  11  T1 for the whole pass and for Process on C04's tree invariant     (jobs_agree, Process_agrees)
+  12  Process without the deviation statements                          (Process_strip, Process_frame_without) *)
 From Coq Require Import List NArith Bool Lia.
-From GY Require Import Model.Schema Spec.C08.
+From GY Require Import Model.Schema Spec.C08 Proofs.DeviationStripProofs.
+From GY Require Spec.C04 Proofs.TreeInvProofs.
 Import ListNotations.
 Local Open Scope N_scope.
 
@@ -418,7 +422,6 @@ Proof.
 Qed.
 
 (* --- delete *)
-Definition dflt_ok (e : entry) : Prop := isLeafList e = true \/ (length (e_dflt e) <= 1)%nat.
 
 Lemma del_cfg_stage : forall dv st,
   spec_edits DKDelete st (P_cfg dv) = Some (with_node st (d_cfg dv (ts_node st))).
@@ -432,18 +435,17 @@ Proof.
 Qed.
 
 Lemma del_dflt_stage : forall dv st,
-  (dv_default dv <> None -> isLeafList (ts_node st) = false) -> dflt_ok (ts_node st) ->
+  (dv_default dv <> None -> isLeafList (ts_node st) = false) ->
   match spec_edits DKDelete st (P_dflt dv) with
   | Some st' => d_dflt dv (ts_node st) = (ts_node st', false) /\ st' = with_node st (ts_node st')
   | None => snd (d_dflt dv (ts_node st)) = true
   end.
 Proof.
-  intros dv st HL HD. unfold P_dflt, d_dflt. destruct (dv_default dv) as [d|]; cbn [spec_edits].
+  intros dv st HL. unfold P_dflt, d_dflt. destruct (dv_default dv) as [d|]; cbn [spec_edits].
   2:{ split; [reflexivity|]. rewrite with_node_id. reflexivity. }
-  rewrite HL by discriminate. cbn [spec_edit spec_unset].
-  destruct HD as [HD|HD]; [rewrite HL in HD by discriminate; discriminate|].
-  destruct (e_dflt (ts_node st)) as [|x [|y r]]; cbn [existsb remove_value]; [reflexivity| |cbn in HD; lia].
-  rewrite orb_false_r. destruct (str_eqb d x); [split; reflexivity|reflexivity].
+  rewrite HL by discriminate. cbn [spec_edit spec_unset]. rewrite HL by discriminate.
+  destruct (e_dflt (ts_node st)) as [|x r]; [reflexivity|].
+  destruct (str_eqb d x); [split; reflexivity|reflexivity].
 Qed.
 
 Lemma shape_d_cfg : forall dv t, shape (d_cfg dv t) = shape t.
@@ -527,13 +529,13 @@ Qed.
 
 Lemma del_agree : forall dv st,
   kind_of (dv_kind dv) = Some DKDelete -> in_scope dv = true ->
-  refused st dv = false -> known_delete_absent_bound st dv = false -> dflt_ok (ts_node st) ->
+  refused st dv = false -> known_delete_absent_bound st dv = false ->
   match spec_edits DKDelete st (named_props dv) with
   | Some st' => apply_delete dv (ts_node st) = (ts_node st', false) /\ step_rel st st'
   | None => snd (apply_delete dv (ts_node st)) = true
   end.
 Proof.
-  intros dv st K S R KN HD.
+  intros dv st K S R KN.
   destruct (kind_delete_scope _ K S) as [HU HT].
   unfold refused in R. rewrite K in R. unfold known_delete_absent_bound in KN. rewrite K in KN.
   rewrite apply_delete_stages, named_props_groups.
@@ -543,7 +545,6 @@ Proof.
   assert (LL : isLeafList (d_cfg dv (ts_node st)) = isLeafList (ts_node st))
     by (apply shape_isLeafList, shape_d_cfg).
   specialize (HDf ltac:(rewrite LL; destruct (dv_default dv); [intros _; exact R|congruence])).
-  specialize (HDf ltac:(unfold dflt_ok in *; rewrite LL; unfold d_cfg; destruct (is_set _); rewrite ?dflt_set_cfg; exact HD)).
   destruct (spec_edits DKDelete (with_node st (d_cfg dv (ts_node st))) (P_dflt dv)) as [st2|].
   - destruct HDf as [HD1 HD2]. rewrite HD1.
     rewrite spec_edits_app, del_mand_stage.
@@ -830,47 +831,6 @@ Proof.
   - destruct K as (K1 & K2 & K3 & K4). rewrite K1, K2, K3, K4. reflexivity.
 Qed.
 
-(* ------------------------------------------------------------------ at most one default outside leaf-lists *)
-Lemma remove_value_length : forall d l, (length (remove_value d l) <= length l)%nat.
-Proof. induction l; cbn; [lia|]. destruct (str_eqb d a); cbn; lia. Qed.
-
-Lemma spec_edit_dflt_ok : forall k st p st',
-  spec_edit k st p = Some st' -> dflt_ok (ts_node st) -> dflt_ok (ts_node st').
-Proof.
-  unfold dflt_ok. intros k st p st' H HD.
-  destruct k; cbn [spec_edit] in H; [| | |inversion H; subst; assumption].
-  1,2: destruct p; cbn [spec_set] in H;
-    repeat match type of H with
-           | (if ?c then _ else _) = _ => destruct c eqn:?
-           | match ?c with _ => _ end = _ => destruct c eqn:?
-           end; inversion H; subst; clear H; cbn [ts_node with_node];
-    rewrite ?(shape_isLeafList _ _ (shape_set_cfg _ _)), ?(shape_isLeafList _ _ (shape_set_mand _ _)),
-            ?(shape_isLeafList _ _ (shape_set_dflt _ _)), ?(shape_isLeafList _ _ (shape_set_units _ _)),
-            ?(shape_isLeafList _ _ (shape_set_ty _ _)), ?(shape_isLeafList _ _ (shape_with_min _ _)),
-            ?(shape_isLeafList _ _ (shape_with_max _ _)),
-            ?dflt_set_cfg, ?dflt_set_mand, ?dflt_set_dflt, ?dflt_set_units, ?dflt_set_ty, ?dflt_with_min, ?dflt_with_max;
-    auto; try (right; cbn; lia).
-  destruct p; cbn [spec_unset] in H;
-    repeat match type of H with
-           | (if ?c then _ else _) = _ => destruct c eqn:?
-           end; inversion H; subst; clear H; cbn [ts_node with_node];
-    rewrite ?(shape_isLeafList _ _ (shape_set_cfg _ _)), ?(shape_isLeafList _ _ (shape_set_mand _ _)),
-            ?(shape_isLeafList _ _ (shape_set_dflt _ _)), ?(shape_isLeafList _ _ (shape_with_min _ _)),
-            ?(shape_isLeafList _ _ (shape_with_max _ _)),
-            ?dflt_set_cfg, ?dflt_set_mand, ?dflt_set_dflt, ?dflt_with_min, ?dflt_with_max; auto.
-  destruct HD as [HD|HD]; [left; assumption|right].
-  pose proof (remove_value_length d (e_dflt (ts_node st))). lia.
-Qed.
-
-Lemma spec_edits_dflt_ok : forall k ps st st',
-  spec_edits k st ps = Some st' -> dflt_ok (ts_node st) -> dflt_ok (ts_node st').
-Proof.
-  induction ps as [|p ps IH]; cbn; intros st st' H HD.
-  - inversion H; subst; assumption.
-  - destruct (spec_edit k st p) eqn:E; [|discriminate].
-    eapply IH; [eassumption|]. eapply spec_edit_dflt_ok; eassumption.
-Qed.
-
 (* ------------------------------------------------------------------ the loop over the deviate statements *)
 Lemma apply_deviates_err : forall ign p dvs F cur att, snd (apply_deviates ign F p cur att true dvs) = true.
 Proof.
@@ -947,6 +907,7 @@ Proof.
         destruct q; cbn in E2;
           repeat match type of E2 with
                  | (if ?c then _ else _) = _ => destruct c
+                 | match ?c with _ => _ end = _ => destruct c
                  end; inversion E2; subst; cbn; assumption. }
     destruct k; try (apply X with (k0 := DKAdd); assumption); try (eapply X; eassumption).
     destruct ign; [inversion E; subst; assumption|].
@@ -967,12 +928,11 @@ Lemma deviates_agree : forall ign p dvs F cur att err st,
   cur = ts_node st -> att = negb (ts_removed st) ->
   (ign = true -> snd p <> []) ->
   (ign = false -> removable p = true -> attach_inv F p st) ->
-  dflt_ok cur ->
   claimed is_builtin ign (removable p) st dvs = true ->
   T1_result ign F p cur att err st dvs.
 Proof.
   intros ign p. unfold T1_result.
-  induction dvs as [|dv dvs IH]; intros F cur att err st Hc Ha Hroot Hinv Hd Hcl.
+  induction dvs as [|dv dvs IH]; intros F cur att err st Hc Ha Hroot Hinv Hcl.
   { cbn. subst. rewrite andb_negb_l. auto. }
   cbn [spec_apply_all apply_deviates existsb claimed] in *.
   apply andb_true_iff in Hcl. destruct Hcl as [Hstep Hcl].
@@ -995,7 +955,7 @@ Proof.
       specialize (IH F (ts_node st1) att err st1 eq_refl).
       rewrite A2 in IH. specialize (IH Ha Hroot).
       specialize (IH ltac:(intros; unfold attach_inv; rewrite A2; apply Hinv; assumption)).
-      specialize (IH ltac:(eapply spec_edits_dflt_ok; eassumption) Hcl).
+      specialize (IH Hcl).
       destruct (spec_apply_all is_builtin ign (removable p) st1 dvs); assumption.
     + left. destruct (apply_add_replace false dv (ts_node st)) as [c e]. cbn in A. subst e.
       rewrite orb_true_r. apply apply_deviates_err.
@@ -1007,19 +967,19 @@ Proof.
       specialize (IH F (ts_node st1) att err st1 eq_refl).
       rewrite A2 in IH. specialize (IH Ha Hroot).
       specialize (IH ltac:(intros; unfold attach_inv; rewrite A2; apply Hinv; assumption)).
-      specialize (IH ltac:(eapply spec_edits_dflt_ok; eassumption) Hcl).
+      specialize (IH Hcl).
       destruct (spec_apply_all is_builtin ign (removable p) st1 dvs); assumption.
     + left. destruct (apply_add_replace true dv (ts_node st)) as [c e]. cbn in A. subst e.
       rewrite orb_true_r. apply apply_deviates_err.
   - (* delete *)
     destruct K as (K1 & K2 & K3 & K4). rewrite K1, K2, K3, K4. cbn [orb]. subst cur.
-    pose proof (del_agree dv st KO Hscope Href Hkn Hd) as A.
+    pose proof (del_agree dv st KO Hscope Href Hkn) as A.
     destruct (spec_edits DKDelete st (named_props dv)) as [st1|] eqn:E.
     + destruct A as [A1 [A2 A3]]. rewrite A1, orb_false_r.
       specialize (IH F (ts_node st1) att err st1 eq_refl).
       rewrite A2 in IH. specialize (IH Ha Hroot).
       specialize (IH ltac:(intros; unfold attach_inv; rewrite A2; apply Hinv; assumption)).
-      specialize (IH ltac:(eapply spec_edits_dflt_ok; eassumption) Hcl).
+      specialize (IH Hcl).
       destruct (spec_apply_all is_builtin ign (removable p) st1 dvs); assumption.
     + left. destruct (apply_delete dv (ts_node st)) as [c e]. cbn in A. subst e.
       rewrite orb_true_r. apply apply_deviates_err.
@@ -1030,7 +990,7 @@ Proof.
       - exfalso. apply Hroot; [reflexivity|]. rewrite <- (rev_involutive (snd p)), RV. reflexivity.
       - cbn [andb]. left. apply apply_deviates_err. }
     destruct ign.
-    { specialize (IH F cur att err st Hc Ha Hroot ltac:(discriminate) Hd Hcl).
+    { specialize (IH F cur att err st Hc Ha Hroot ltac:(discriminate) Hcl).
       destruct (spec_apply_all is_builtin true _ st dvs); assumption. }
     destruct last as [n| |]; cbn [andb]; try (left; apply apply_deviates_err).
     specialize (Hinv eq_refl eq_refl). unfold attach_inv in Hinv.
@@ -1058,7 +1018,7 @@ Proof.
       specialize (IH (remove_target F p) cur false err st1 Hc eq_refl Hroot).
       specialize (IH ltac:(intros _ _; unfold attach_inv; cbn [st1 ts_removed];
                            apply present_after_remove; [unfold removable; rewrite RV; reflexivity|assumption|assumption])).
-      specialize (IH Hd Hcl).
+      specialize (IH Hcl).
       destruct (spec_apply_all is_builtin false true st1 dvs) as [st2|] eqn:SA; [|assumption].
       rewrite (removed_mono _ _ _ _ _ _ SA eq_refl). cbn [st1 ts_removed negb andb] in IH.
       rewrite (removed_mono _ _ _ _ _ _ SA eq_refl) in IH. cbn [negb] in IH. exact IH.
@@ -1081,7 +1041,7 @@ Qed.
 
 Theorem deviates_agree_top : forall ign F p cur dvs err hmin hmax,
   locate_pos F p = Some cur ->
-  parent_nodup F p -> dflt_ok cur -> (ign = true -> snd p <> []) ->
+  parent_nodup F p -> (ign = true -> snd p <> []) ->
   claimed is_builtin ign (removable p) (init_state cur hmin hmax) dvs = true ->
   match spec_apply_all is_builtin ign (removable p) (init_state cur hmin hmax) dvs with
   | Some st' =>
@@ -1091,10 +1051,10 @@ Theorem deviates_agree_top : forall ign F p cur dvs err hmin hmax,
   | None => snd (apply_deviates ign F p cur true err dvs) = true \/ existsb deviate_err dvs = true
   end.
 Proof.
-  intros ign F p cur dvs err hmin hmax L ND HD HR HC.
+  intros ign F p cur dvs err hmin hmax L ND HR HC.
   pose proof (deviates_agree ign p dvs F cur true err (init_state cur hmin hmax) eq_refl eq_refl HR) as A.
   specialize (A ltac:(intros _ R; unfold attach_inv; cbn; split; [eapply located_present; eassumption|assumption])).
-  specialize (A HD HC). unfold T1_result in A. cbn [init_state ts_removed negb andb] in A. exact A.
+  specialize (A HC). unfold T1_result in A. cbn [init_state ts_removed negb andb] in A. exact A.
 Qed.
 
 (* ------------------------------------------------------------------ one deviation, the deviations of a module *)
@@ -1123,7 +1083,7 @@ Definition deviation_claimed (SC : schema) (ign : bool) (F : forest) (m : module
   match Find SC F m (m_name m, []) (fst d) with
   | (Some p, F1) =>
     match locate_pos F1 p with
-    | Some cur => parent_nodup F1 p /\ dflt_ok cur /\ (ign = true -> snd p <> []) /\
+    | Some cur => parent_nodup F1 p /\ (ign = true -> snd p <> []) /\
                   claimed is_builtin ign (removable p) (init_state cur (fst w) (snd w)) (snd d) = true
     | None => True
     end
@@ -1141,8 +1101,8 @@ Proof.
   cbn [fst snd apply_deviations] in *.
   destruct (Find SC F m (m_name m, []) path) as [[p|] F1]; [|left; reflexivity].
   destruct (locate_pos F1 p) as [cur|] eqn:L; [|left; reflexivity].
-  destruct HC as (ND & HD & HR & HC).
-  pose proof (deviates_agree_top ign F1 p cur dvs err (fst w) (snd w) L ND HD HR HC) as A.
+  destruct HC as (ND & HR & HC).
+  pose proof (deviates_agree_top ign F1 p cur dvs err (fst w) (snd w) L ND HR HC) as A.
   destruct (spec_apply_all is_builtin ign (removable p) (init_state cur (fst w) (snd w)) dvs) as [st|].
   - destruct A as [A1 A2]. rewrite A1. split; [|assumption].
     destruct (ts_removed st); reflexivity.
@@ -1528,27 +1488,12 @@ Proof.
 Qed.
 
 (* ------------------------------------------------------------------ Process = everything before the deviation pass + the pass *)
-(* The part before the pass (includes, ToEntry, augments, choice fix-up: it may fail, it does not look at
-   the option) is not copied here but read off Process by the proof script, so that [pre_dev] follows the
-   model when that part changes. *)
-Definition Process_split_sig (SC : schema) (ic : bool) (order : list str) :
-  { pre : option (forest * bool) |
-    forall ign, Process SC ic ign order =
-                match pre with
-                | None => RErr
-                | Some st => let '(F4, err4) := dev_pass SC ign order st in if err4 then RErr else ROk F4
-                end }.
-Proof.
-  unfold Process, dev_pass. lazy zeta.
-  repeat match goal with
-         | |- context [if ?c then RErr else _] => destruct c; [exists None; intro; reflexivity|]
-         | |- context [match ?x with (_, _) => _ end] => destruct x
-         end.
-  eexists (Some _). intro ign. reflexivity.
-Defined.
-
+(* The part before the pass (includes, ToEntry, augment rounds, choice fix-up, reporting pass: it may fail, it
+   does not look at the option) is named stage by stage in Spec/C04.v; Process is tied to those stages by
+   TreeInvProofs.Process_stages. *)
 Definition pre_dev (SC : schema) (ic : bool) (order : list str) : option (forest * bool) :=
-  proj1_sig (Process_split_sig SC ic order).
+  if C04.includes_fail SC || C04.build_fail SC ic then None
+  else Some (C04.stage_F3 SC ic order, C04.stage_err3 SC ic order).
 
 Theorem Process_split : forall SC ic ign order,
   Process SC ic ign order =
@@ -1556,7 +1501,34 @@ Theorem Process_split : forall SC ic ign order,
   | None => RErr
   | Some st => let '(F4, err4) := dev_pass SC ign order st in if err4 then RErr else ROk F4
   end.
-Proof. intros. unfold pre_dev. apply (proj2_sig (Process_split_sig SC ic order)). Qed.
+Proof.
+  intros. rewrite TreeInvProofs.Process_stages. unfold pre_dev.
+  destruct (C04.includes_fail SC); [reflexivity|]. destruct (C04.build_fail SC ic); [reflexivity|]. cbn [orb].
+  unfold C04.stage_err4, C04.stage_F4, C04.stage_dev, dev_pass.
+  change (C04.dev_step SC ign) with
+    (fun (st : forest * bool) (mn : str) =>
+       match find_module SC mn with
+       | Some m => apply_deviations SC ign (fst st) (snd st) m (m_deviations m)
+       | None => st
+       end).
+  destruct (fold_left _ order (C04.stage_F3 SC ic order, C04.stage_err3 SC ic order)) as [F4 e4]. reflexivity.
+Qed.
+
+(* the forest handed to the deviation pass satisfies the tree invariant of C04, and the pass keeps it *)
+Lemma pre_dev_inv : forall SC ic order F3 e3, pre_dev SC ic order = Some (F3, e3) -> C04.ForestInv false F3.
+Proof.
+  intros SC ic order F3 e3 H. unfold pre_dev in H. destruct (_ || _); [discriminate|]. inversion H; subst.
+  apply TreeInvProofs.stage_F3_inv.
+Qed.
+
+Lemma run_job_inv : forall SC ign s st j, C04.ForestInv s (fst st) -> C04.ForestInv s (fst (run_job SC ign st j)).
+Proof. intros. unfold run_job. apply TreeInvProofs.apply_deviations_inv. assumption. Qed.
+
+Lemma forestinv_parent_nodup : forall s F p, C04.ForestInv s F -> parent_nodup F p.
+Proof.
+  intros s F p H pe d L D. pose proof (TreeInvProofs.locate_pos_inv _ _ _ _ H L) as T.
+  destruct (TreeInvProofs.TreeInv_dir _ _ _ T D) as [[ND _] _]. exact ND.
+Qed.
 
 (* ------------------------------------------------------------------ T4: what is reported *)
 (* a deviate statement that cannot be read (unknown kind, max-elements 0, unresolvable type) anywhere in
@@ -1807,24 +1779,216 @@ Proof.
     destruct (apply_delete dv cur). apply IH; assumption.
 Qed.
 
+(* ------------------------------------------------------------------ what a lookup creates *)
+(* away from the updated position, when the update is known only at the node it reaches *)
+Lemma locate_update_at_away_at : forall steps tail root f qs e,
+  locate root steps = Some e ->
+  (forall qs', ~ comparable tail qs' -> locate (f e) qs' = locate e qs') ->
+  ~ comparable (steps ++ tail) qs ->
+  locate (update_at root steps f) qs = locate root qs.
+Proof.
+  induction steps as [|s steps IH]; intros tail root f qs e HL Hf Hc; cbn [app update_at locate] in *.
+  - inversion HL; subst. apply Hf. assumption.
+  - destruct qs as [|s' qs]; [exfalso; apply Hc; exact I|].
+    cbn [comparable] in Hc.
+    destruct (step_eq_dec s s') as [E|NE].
+    + subst s'. assert (Hc' : ~ comparable (steps ++ tail) qs) by tauto.
+      destruct s; cbn [locate].
+      * destruct (e_dir root) as [d|] eqn:D; [|discriminate].
+        destruct (lookup n d) as [c|] eqn:L; [|discriminate].
+        rewrite dir_set_dir. rewrite lookup_update_same by congruence. eapply IH; eassumption.
+      * destruct (e_rpc root) as [[[i|] o]|] eqn:R; try discriminate.
+        rewrite rpc_set_rpc. eapply IH; eassumption.
+      * destruct (e_rpc root) as [[i [o|]]|] eqn:R; try discriminate.
+        rewrite rpc_set_rpc. eapply IH; eassumption.
+    + destruct s.
+      * destruct (e_dir root) as [d|] eqn:D; [|reflexivity].
+        destruct (lookup n d) as [c|] eqn:L; [|reflexivity].
+        destruct s'; cbn [locate]; rewrite ?dir_set_dir, ?rpc_set_dir, ?D; try reflexivity.
+        rewrite lookup_update_other; [reflexivity|].
+        apply str_eqb_neq. congruence.
+      * destruct (e_rpc root) as [[[i|] o]|] eqn:R; try reflexivity.
+        destruct s'; cbn [locate]; rewrite ?dir_set_rpc, ?rpc_set_rpc, ?R; try reflexivity. congruence.
+      * destruct (e_rpc root) as [[i [o|]]|] eqn:R; try reflexivity.
+        destruct s'; cbn [locate]; rewrite ?dir_set_rpc, ?rpc_set_rpc, ?R; try reflexivity. congruence.
+Qed.
+
+Lemma locate_pos_update_away_at : forall F p tail f q e,
+  locate_pos F p = Some e ->
+  (forall qs', ~ comparable tail qs' -> locate (f e) qs' = locate e qs') ->
+  ~ pcomparable (below p tail) q ->
+  locate_pos (update_pos F p f) q = locate_pos F q.
+Proof.
+  intros F [mn steps] tail f [qn qs] e HL Hf Hc. unfold locate_pos, update_pos, pcomparable, below in *.
+  cbn [fst snd] in *.
+  destruct (lookup mn F) as [root|] eqn:L; [|reflexivity].
+  destruct (str_eqb qn mn) eqn:E.
+  - apply str_eqb_eq in E. subst qn. rewrite lookup_update_same by congruence. rewrite L.
+    apply locate_update_at_away_at with (tail := tail) (e := e); [assumption|assumption|]. tauto.
+  - rewrite lookup_update_other by assumption. reflexivity.
+Qed.
+
+Lemma create_input_away : forall e o qs', e_rpc e = Some (None, o) -> ~ comparable [SIn] qs' ->
+  locate (set_rpc e (Some (Some (empty_io true), o))) qs' = locate e qs'.
+Proof.
+  intros e o qs' R H. destruct qs' as [|s r]; [exfalso; apply H; exact I|].
+  destruct s; cbn [locate]; rewrite ?dir_set_rpc, ?rpc_set_rpc, ?R; try reflexivity.
+  exfalso. apply H. cbn. split; [reflexivity|]. destruct r; exact I.
+Qed.
+Lemma create_output_away : forall e i qs', e_rpc e = Some (i, None) -> ~ comparable [SOut] qs' ->
+  locate (set_rpc e (Some (i, Some (empty_io false)))) qs' = locate e qs'.
+Proof.
+  intros e i qs' R H. destruct qs' as [|s r]; [exfalso; apply H; exact I|].
+  destruct s; cbn [locate]; rewrite ?dir_set_rpc, ?rpc_set_rpc, ?R; try reflexivity; try (destruct i; reflexivity).
+  exfalso. apply H. cbn. split; [reflexivity|]. destruct r; exact I.
+Qed.
+
+(* the positions of the rpc input/output nodes that find_steps makes on demand, in the order made *)
+Fixpoint find_created (F : forest) (p : option pos) (parts : list str) : list pos :=
+  match parts with
+  | [] => []
+  | part :: rest =>
+    match p with
+    | None => []
+    | Some (mn, steps) =>
+      if str_eqb part s_dot then find_created F p rest
+      else if str_eqb part s_dotdot then
+        match rev steps with
+        | [] => []
+        | _ :: up => find_created F (Some (mn, rev up)) rest
+        end
+      else
+        match locate_pos F (mn, steps) with
+        | None => []
+        | Some e =>
+          let name := snd (getPrefix part) in
+          match e_rpc e with
+          | Some (i, o) =>
+            if str_eqb name s_input then
+              match i with
+              | None => (mn, steps ++ [SIn]) ::
+                        find_created (update_pos F (mn, steps) (fun x => set_rpc x (Some (Some (empty_io true), o))))
+                                     (Some (mn, steps ++ [SIn])) rest
+              | Some _ => find_created F (Some (mn, steps ++ [SIn])) rest
+              end
+            else if str_eqb name s_output then
+              match o with
+              | None => (mn, steps ++ [SOut]) ::
+                        find_created (update_pos F (mn, steps) (fun x => set_rpc x (Some (i, Some (empty_io false)))))
+                                     (Some (mn, steps ++ [SOut])) rest
+              | Some _ => find_created F (Some (mn, steps ++ [SOut])) rest
+              end
+            else []
+          | None =>
+            if str_eqb name s_dot then find_created F p rest
+            else if match name with [] => true | _ => false end || str_eqb name s_dotdot then []
+            else
+              match e_dir e with
+              | Some d => match lookup name d with
+                          | Some _ => find_created F (Some (mn, steps ++ [SChild name])) rest
+                          | None => []
+                          end
+              | None => []
+              end
+          end
+        end
+    end
+  end.
+
+Lemma find_steps_none : forall parts F, find_steps F None parts = (None, F).
+Proof. destruct parts; reflexivity. Qed.
+
+Lemma find_steps_frame : forall parts F p q,
+  (forall c, In c (find_created F p parts) -> ~ pcomparable c q) ->
+  locate_pos (snd (find_steps F p parts)) q = locate_pos F q.
+Proof.
+  induction parts as [|part rest IH]; intros F p q H; cbn [find_steps find_created] in *; [reflexivity|].
+  destruct p as [[mn steps]|]; [|reflexivity].
+  destruct (str_eqb part s_dot); [apply IH; assumption|].
+  destruct (str_eqb part s_dotdot).
+  { destruct (rev steps); [rewrite find_steps_none; reflexivity|apply IH; assumption]. }
+  destruct (locate_pos F (mn, steps)) as [e|] eqn:L; [|reflexivity].
+  destruct (e_rpc e) as [[i o]|] eqn:R.
+  - destruct (str_eqb (snd (getPrefix part)) s_input).
+    { destruct i as [i|]; [apply IH; assumption|].
+      rewrite IH by (intros c Hc; apply H; right; assumption).
+      apply locate_pos_update_away_at with (tail := [SIn]) (e := e); [assumption| |].
+      - intros qs' X. apply create_input_away; assumption.
+      - apply H. left. reflexivity. }
+    destruct (str_eqb (snd (getPrefix part)) s_output); [|reflexivity].
+    destruct o as [o|]; [apply IH; assumption|].
+    rewrite IH by (intros c Hc; apply H; right; assumption).
+    apply locate_pos_update_away_at with (tail := [SOut]) (e := e); [assumption| |].
+    + intros qs' X. apply create_output_away; assumption.
+    + apply H. left. reflexivity.
+  - destruct (str_eqb (snd (getPrefix part)) s_dot); [apply IH; assumption|].
+    destruct (_ || _); [reflexivity|].
+    destruct (e_dir e) as [d|]; [|rewrite find_steps_none; reflexivity].
+    destruct (lookup (snd (getPrefix part)) d); [apply IH; assumption|rewrite find_steps_none; reflexivity].
+Qed.
+
+(* Find only dispatches to find_steps: the start position is all that depends on the module set *)
+Definition Find_created (SC : schema) (F : forest) (ctx : module) (start : pos) (name : str) : list pos :=
+  match name with
+  | [] => []
+  | _ =>
+    match split_on cSLASH [] name with
+    | [] :: first :: rest =>
+      let prefix := fst (getPrefix first) in
+      match prefix with
+      | [] =>
+        let root := match find_module SC (fst start) with
+                    | Some sm => match owner SC sm with Some o => m_name o | None => fst start end
+                    | None => fst start
+                    end in
+        find_created F (Some (root, [])) (first :: rest)
+      | _ =>
+        match FindModuleByPrefix SC ctx prefix with
+        | None => []
+        | Some md =>
+          match owner SC md with
+          | None => []
+          | Some m => find_created F (Some (m_name m, [])) (first :: rest)
+          end
+        end
+      end
+    | [] :: [] => []
+    | parts => find_created F (Some start) parts
+    end
+  end.
+
+Theorem Find_frame : forall SC F ctx start name q,
+  (forall c, In c (Find_created SC F ctx start name) -> ~ pcomparable c q) ->
+  locate_pos (snd (Find SC F ctx start name)) q = locate_pos F q.
+Proof.
+  intros SC F ctx start name q H. unfold Find, Find_created in *.
+  destruct name as [|c0 name]; [reflexivity|].
+  destruct (split_on cSLASH [] (c0 :: name)) as [|[|x l] [|first rest]];
+    try (apply find_steps_frame; assumption); try reflexivity.
+  destruct (fst (getPrefix first)).
+  - apply find_steps_frame; assumption.
+  - destruct (FindModuleByPrefix SC ctx (n :: s)); [|reflexivity].
+    destruct (owner SC m); [|reflexivity]. apply find_steps_frame; assumption.
+Qed.
+
+Theorem Find_created_nil : forall SC F ctx start name,
+  Find_created SC F ctx start name = [] -> forall q, locate_pos (snd (Find SC F ctx start name)) q = locate_pos F q.
+Proof. intros. apply Find_frame. rewrite H. intros c []. Qed.
+
 (* ------------------------------------------------------------------ T2 for the whole deviation pass *)
 Definition job_target (SC : schema) (F : forest) (j : job) : option pos :=
   fst (Find SC F (fst j) (m_name (fst j), []) (fst (snd j))).
 
-(* the lookups of the run create nothing (Find makes the input/output of an rpc on demand) *)
-Fixpoint jobs_pure (SC : schema) (ign : bool) (F : forest) (js : list job) : Prop :=
-  match js with
-  | [] => True
-  | j :: r => snd (Find SC F (fst j) (m_name (fst j), []) (fst (snd j))) = F /\
-              jobs_pure SC ign (fst (run_job SC ign (F, false) j)) r
-  end.
+(* what one deviation touches: the rpc input/output nodes its path lookup creates, and its target *)
+Definition job_touched (SC : schema) (F : forest) (j : job) : list pos :=
+  Find_created SC F (fst j) (m_name (fst j), []) (fst (snd j)) ++
+  match job_target SC F j with Some p => [p] | None => [] end.
 
-(* the targets the run finds, each in the forest of its moment *)
-Fixpoint job_targets (SC : schema) (ign : bool) (F : forest) (js : list job) : list pos :=
+(* ... and the whole pass, each deviation in the forest of its moment *)
+Fixpoint jobs_touched (SC : schema) (ign : bool) (F : forest) (js : list job) : list pos :=
   match js with
   | [] => []
-  | j :: r => (match job_target SC F j with Some p => [p] | None => [] end) ++
-              job_targets SC ign (fst (run_job SC ign (F, false) j)) r
+  | j :: r => job_touched SC F j ++ jobs_touched SC ign (fst (run_job SC ign (F, false) j)) r
   end.
 
 Lemma run_job_err_indep : forall SC ign F e1 e2 j,
@@ -1840,34 +2004,33 @@ Proof.
 Qed.
 
 Lemma run_job_frame : forall SC ign F err j q,
-  snd (Find SC F (fst j) (m_name (fst j), []) (fst (snd j))) = F ->
-  (forall p, job_target SC F j = Some p -> ~ pcomparable p q) ->
+  (forall p, In p (job_touched SC F j) -> ~ pcomparable p q) ->
   locate_pos (fst (run_job SC ign (F, err) j)) q = locate_pos F q.
 Proof.
-  intros SC ign F err [m [path dvs]] q HP HT. unfold job_target in HT. cbn [fst snd] in *.
-  destruct (Find SC F m (m_name m, []) path) as [[p|] F1] eqn:HF; cbn [fst snd] in *; subst F1.
-  - destruct (locate_pos F p) as [cur|] eqn:HL.
-    + unfold run_job. cbn [fst snd]. rewrite (apply_deviations_one SC ign F err m path dvs p F cur HF HL).
-      apply deviation_frame_away. apply HT. reflexivity.
-    + unfold run_job. cbn [fst snd apply_deviations]. rewrite HF, HL. reflexivity.
-  - unfold run_job. cbn [fst snd apply_deviations]. rewrite HF. reflexivity.
+  intros SC ign F err [m [path dvs]] q HT. unfold job_touched, job_target in HT. cbn [fst snd] in *.
+  pose proof (Find_frame SC F m (m_name m, []) path q
+                (fun c Hc => HT c (in_or_app _ _ _ (or_introl Hc)))) as FF.
+  destruct (Find SC F m (m_name m, []) path) as [[p|] F1] eqn:HF; cbn [fst snd] in *.
+  - destruct (locate_pos F1 p) as [cur|] eqn:HL.
+    + unfold run_job. cbn [fst snd]. rewrite (apply_deviations_one SC ign F err m path dvs p F1 cur HF HL).
+      rewrite deviation_frame_away; [exact FF|]. apply HT. apply in_or_app. right. left. reflexivity.
+    + unfold run_job. cbn [fst snd apply_deviations]. rewrite HF, HL. exact FF.
+  - unfold run_job. cbn [fst snd apply_deviations]. rewrite HF. exact FF.
 Qed.
 
 Theorem jobs_frame : forall SC ign js F err q,
-  jobs_pure SC ign F js ->
-  (forall p, In p (job_targets SC ign F js) -> ~ pcomparable p q) ->
+  (forall p, In p (jobs_touched SC ign F js) -> ~ pcomparable p q) ->
   locate_pos (fst (run_jobs SC ign (F, err) js)) q = locate_pos F q.
 Proof.
-  intros SC ign. induction js as [|j js IH]; intros F err q HP HT; [reflexivity|].
-  cbn [run_jobs fold_left jobs_pure job_targets] in *. destruct HP as [HP1 HP2].
+  intros SC ign. induction js as [|j js IH]; intros F err q HT; [reflexivity|].
+  cbn [run_jobs fold_left jobs_touched] in *.
   fold (run_jobs SC ign (run_job SC ign (F, err) j) js).
   destruct (run_job SC ign (F, err) j) as [F' e'] eqn:RJ.
   assert (EF : F' = fst (run_job SC ign (F, false) j)).
   { rewrite (run_job_err_indep SC ign F false err j), RJ. reflexivity. }
   rewrite IH.
   - replace F' with (fst (run_job SC ign (F, err) j)) by (rewrite RJ; reflexivity).
-    apply run_job_frame; [assumption|]. intros p Hp. apply HT. apply in_or_app. left. rewrite Hp. left. reflexivity.
-  - rewrite EF. assumption.
+    apply run_job_frame. intros p Hp. apply HT. apply in_or_app. left. assumption.
   - intros p Hp. apply HT. apply in_or_app. right. rewrite <- EF. assumption.
 Qed.
 
@@ -1890,12 +2053,11 @@ Qed.
 Theorem Process_frame : forall SC ic ign order F4,
   Process SC ic ign order = ROk F4 ->
   exists F3, pre_dev SC ic order = Some (F3, false) /\
-    (jobs_pure SC ign F3 (jobs SC order) ->
-     forall q, (forall p, In p (job_targets SC ign F3 (jobs SC order)) -> ~ pcomparable p q) ->
-               locate_pos F4 q = locate_pos F3 q).
+    forall q, (forall p, In p (jobs_touched SC ign F3 (jobs SC order)) -> ~ pcomparable p q) ->
+              locate_pos F4 q = locate_pos F3 q.
 Proof.
   intros SC ic ign order F4 H. destruct (Process_ok_inv _ _ _ _ _ H) as (F3 & H1 & H2).
-  exists F3. split; [assumption|]. intros HP q HT.
+  exists F3. split; [assumption|]. intros q HT.
   replace F4 with (fst (run_jobs SC ign (F3, false) (jobs SC order))) by (rewrite H2; reflexivity).
   apply jobs_frame; assumption.
 Qed.
@@ -1975,4 +2137,169 @@ Theorem spec_ignore_not_supported : forall res rem st dv,
   spec_deviate res true rem st dv = Some st.
 Proof.
   intros res rem st dv N V. unfold spec_deviate. rewrite (is_ns_kind dv N), V. reflexivity.
+Qed.
+
+(* ------------------------------------------------------------------ T1 for the whole pass, on forests that satisfy C04's invariant *)
+(* what remains of the hypotheses of the agreement once the tree invariant provides the distinct sibling names *)
+Definition job_claimed (SC : schema) (ign : bool) (F : forest) (j : job) (w : bool * bool) : Prop :=
+  match Find SC F (fst j) (m_name (fst j), []) (fst (snd j)) with
+  | (Some p, F1) =>
+    match locate_pos F1 p with
+    | Some cur => (ign = true -> snd p <> []) /\
+                  claimed is_builtin ign (removable p) (init_state cur (fst w) (snd w)) (snd (snd j)) = true
+    | None => True
+    end
+  | (None, _) => True
+  end.
+
+Fixpoint jobs_claimed (SC : schema) (ign : bool) (F : forest) (js : list job) (ws : list (bool * bool)) : Prop :=
+  match js with
+  | [] => True
+  | j :: rest =>
+    job_claimed SC ign F j (hd (true, true) ws) /\
+    match spec_deviation SC ign F (fst j) (hd (true, true) ws) (snd j) with
+    | Some F' => jobs_claimed SC ign F' rest (tl ws)
+    | None => True
+    end
+  end.
+
+Lemma job_claimed_deviation : forall SC ign s F m d w,
+  C04.ForestInv s F -> job_claimed SC ign F (m, d) w -> deviation_claimed SC ign F m w d.
+Proof.
+  intros SC ign s F m d w HI HC. unfold job_claimed, deviation_claimed in *. cbn [fst snd] in *.
+  pose proof (TreeInvProofs.Find_inv SC s F m (m_name m, []) (fst d) HI) as HI1.
+  destruct (Find SC F m (m_name m, []) (fst d)) as [[p|] F1]; [|exact I]. cbn [snd] in HI1.
+  destruct (locate_pos F1 p); [|exact I]. destruct HC as [H1 H2].
+  split; [eapply forestinv_parent_nodup; eassumption|]. split; assumption.
+Qed.
+
+Definition jobs_deviate_err (js : list job) : bool := existsb (fun j => existsb deviate_err (snd (snd j))) js.
+
+Theorem jobs_agree : forall SC ign s js F err ws,
+  C04.ForestInv s F -> jobs_claimed SC ign F js ws ->
+  match spec_pass SC ign F js ws with
+  | Some F' => run_jobs SC ign (F, err) js = (F', err) /\ jobs_deviate_err js = false
+  | None => snd (run_jobs SC ign (F, err) js) = true \/ jobs_deviate_err js = true
+  end.
+Proof.
+  intros SC ign s. induction js as [|[m d] js IH]; intros F err ws HI HC.
+  { cbn. auto. }
+  cbn [spec_pass jobs_claimed run_jobs fold_left jobs_deviate_err existsb fst snd] in *.
+  destruct HC as [HC1 HC2].
+  pose proof (deviation_agree SC ign F err m (hd (true, true) ws) d (job_claimed_deviation _ _ _ _ _ _ _ HI HC1)) as A.
+  pose proof (run_job_inv SC ign s (F, err) (m, d) HI) as HI'.
+  fold (run_jobs SC ign (run_job SC ign (F, err) (m, d)) js).
+  unfold run_job in *. cbn [fst snd] in *.
+  destruct (spec_deviation SC ign F m (hd (true, true) ws) d) as [F'|].
+  - destruct A as [A1 A2]. rewrite A1 in *. rewrite A2. cbn [orb fst] in *.
+    apply (IH F' err (tl ws)); assumption.
+  - destruct A as [A|A].
+    + left. destruct (apply_deviations SC ign F err m [d]) as [F' e']. cbn in A. subst e'.
+      apply run_jobs_err.
+    + right. rewrite A. reflexivity.
+Qed.
+
+Lemma find_module_in : forall SC n m, find_module SC n = Some m -> In m SC.
+Proof.
+  induction SC as [|x SC IH]; cbn; intros n m H; [discriminate|].
+  destruct (str_eqb (m_name x) n); [inversion H; auto|]. right. eapply IH; eassumption.
+Qed.
+
+Lemma jobs_in : forall SC order j, In j (jobs SC order) -> In (fst j) SC /\ In (snd j) (m_deviations (fst j)).
+Proof.
+  intros SC order j H. unfold jobs in H. apply in_flat_map in H. destruct H as (mn & _ & H).
+  destruct (find_module SC mn) as [m|] eqn:E; [|contradiction].
+  unfold module_jobs in H. apply in_map_iff in H. destruct H as (d & <- & Hd). cbn.
+  split; [eapply find_module_in; eassumption|assumption].
+Qed.
+
+(* T1 at the level of Process: with the forest before the pass clean, Process returns what the reference pass
+   returns -- no hypothesis on sibling names or defaults any more *)
+Theorem Process_agrees : forall SC ic ign order F3 ws,
+  pre_dev SC ic order = Some (F3, false) ->
+  jobs_claimed SC ign F3 (jobs SC order) ws ->
+  Process SC ic ign order = match spec_pass SC ign F3 (jobs SC order) ws with Some F' => ROk F' | None => RErr end.
+Proof.
+  intros SC ic ign order F3 ws HP HC.
+  pose proof (jobs_agree SC ign false (jobs SC order) F3 false ws (pre_dev_inv _ _ _ _ _ HP) HC) as A.
+  destruct (spec_pass SC ign F3 (jobs SC order) ws) as [F'|].
+  - destruct A as [A _]. rewrite Process_split, HP, dev_pass_jobs, A. reflexivity.
+  - destruct A as [A|A].
+    + rewrite Process_split, HP, dev_pass_jobs.
+      destruct (run_jobs SC ign (F3, false) (jobs SC order)) as [F e]. cbn in A. subst. reflexivity.
+    + unfold jobs_deviate_err in A. apply existsb_exists in A. destruct A as (j & Hj & A).
+      apply existsb_exists in A. destruct A as (dv & Hdv & A).
+      destruct (jobs_in _ _ _ Hj) as [H1 H2].
+      eapply Process_reports_bad_statement; eassumption.
+Qed.
+
+(* ------------------------------------------------------------------ the forest before the pass is the result without the deviations *)
+Lemma pre_dev_strip : forall SC ic order,
+  existsb derr SC = false -> pre_dev (strip_devs SC) ic order = pre_dev SC ic order.
+Proof.
+  intros SC ic order H. unfold pre_dev.
+  rewrite includes_fail_strip, stage_F3_strip, stage_err3_strip, (build_fail_strip SC ic), H, orb_false_r. reflexivity.
+Qed.
+
+Lemma jobs_strip : forall SC order, jobs (strip_devs SC) order = [].
+Proof.
+  intros SC order. unfold jobs. induction order as [|mn order IH]; [reflexivity|].
+  cbn [flat_map]. rewrite IH, find_module_strip. destruct (find_module SC mn); reflexivity.
+Qed.
+
+Theorem Process_strip : forall SC ic ign order,
+  existsb derr SC = false ->
+  Process (strip_devs SC) ic ign order =
+  match pre_dev SC ic order with
+  | None => RErr
+  | Some (F3, e3) => if e3 then RErr else ROk F3
+  end.
+Proof.
+  intros SC ic ign order H. rewrite Process_split, (pre_dev_strip SC ic order H).
+  destruct (pre_dev SC ic order) as [[F3 e3]|]; [|reflexivity].
+  rewrite dev_pass_jobs, jobs_strip. reflexivity.
+Qed.
+
+Lemma Process_ok_no_derr : forall SC ic ign order F, Process SC ic ign order = ROk F -> existsb derr SC = false.
+Proof.
+  intros SC ic ign order F H. destruct (existsb derr SC) eqn:E; [|reflexivity].
+  apply existsb_exists in E. destruct E as (m & Hm & E). unfold derr in E.
+  apply existsb_exists in E. destruct E as (d & Hd & E). apply existsb_exists in E. destruct E as (dv & Hdv & E).
+  rewrite (Process_reports_bad_statement SC ic ign order m d dv Hm Hd Hdv E) in H. discriminate.
+Qed.
+
+(* T2 at the level of Process, complete: a clean result differs from what the same modules yield WITHOUT their
+   deviation statements only at the positions the deviations touch *)
+Theorem Process_frame_without : forall SC ic ign order F4,
+  Process SC ic ign order = ROk F4 ->
+  exists F3, Process (strip_devs SC) ic ign order = ROk F3 /\
+    forall q, (forall p, In p (jobs_touched SC ign F3 (jobs SC order)) -> ~ pcomparable p q) ->
+              locate_pos F4 q = locate_pos F3 q.
+Proof.
+  intros SC ic ign order F4 H. destruct (Process_frame SC ic ign order F4 H) as (F3 & HP & HF).
+  exists F3. split; [|assumption].
+  rewrite (Process_strip SC ic ign order (Process_ok_no_derr _ _ _ _ _ H)), HP. reflexivity.
+Qed.
+
+(* ... and T1 at that level: with the undeviated result F3 at hand, Process returns what the reference pass makes
+   of F3 *)
+Theorem Process_agrees_without : forall SC ic ign order F3 ws,
+  existsb derr SC = false ->
+  Process (strip_devs SC) ic ign order = ROk F3 ->
+  jobs_claimed SC ign F3 (jobs SC order) ws ->
+  Process SC ic ign order = match spec_pass SC ign F3 (jobs SC order) ws with Some F' => ROk F' | None => RErr end.
+Proof.
+  intros SC ic ign order F3 ws HD HS HC. rewrite (Process_strip SC ic ign order HD) in HS.
+  destruct (pre_dev SC ic order) as [[F e]|] eqn:HP; [|discriminate].
+  destruct e; [discriminate|]. inversion HS; subst F.
+  apply Process_agrees; assumption.
+Qed.
+
+(* an unreadable deviate statement is the only way in which the deviation statements can make the part of Process
+   before the pass fail *)
+Theorem Process_strip_err : forall SC ic ign order,
+  existsb derr SC = true -> Process SC ic ign order = RErr.
+Proof.
+  intros SC ic ign order E. destruct (Process SC ic ign order) eqn:P; [reflexivity|].
+  rewrite (Process_ok_no_derr _ _ _ _ _ P) in E. discriminate.
 Qed.
